@@ -226,6 +226,7 @@ def evaluate(ctx, cases):
             if runner.is_oom(i):
                 ctx.dist["allocation of an announced size refused (outside the claim)"] += 1; continue
             if not isinstance(i, str):
+                if "TIMEOUT after" in i[2]: ctx.fail("C04:hang", "the reader does not terminate (BUF_SIZE=%d, %s)" % (B, cmd), cc, {"stderr": i[2][-300:]}); continue
                 ctx.fail("C04:crash", "reader crashed / sanitizer report (BUF_SIZE=%d, %s)" % (B, cmd), cc, {"stderr": i[2][-1500:]}); continue
             ws = i.split(" ")
             status = ws[-1]
@@ -276,13 +277,14 @@ def evaluate(ctx, cases):
             for B in ((16, 4096) if ctx.tier == "thorough" else ((16,) if k % 2 else (4096,))): jobs.append((c, fl, B))
     import json, os, sys
     helper = os.path.join(os.path.dirname(os.path.dirname(os.path.abspath(__file__))), "vlib", "lprun.py")
-    hr = subprocess.run([sys.executable, helper], input=json.dumps([[[ctx.lpconvert[B]] + fl, c["text"], 300] for c, fl, B in jobs]).encode(), capture_output=True,
+    hr = subprocess.run([sys.executable, helper], input=json.dumps([[[ctx.lpconvert[B]] + fl, c["text"], 30] for c, fl, B in jobs]).encode(), capture_output=True,
                         env=dict(os.environ, **runner.ASAN_ENV))       # same allocation cap as the harness: sizes the input announces are refused, not zero-filled
     if hr.returncode != 0: raise RuntimeError("lprun helper failed: " + hr.stderr.decode()[-500:])
     class _R:
         def __init__(self, x): self.returncode, self.stderr = x[0], x[1].encode("latin-1")
-    results = [None if x is None else _R(x) for x in json.loads(hr.stdout)]
+    results = [None if x is None else x if x == "skip" else _R(x) for x in json.loads(hr.stdout)]
     for (c, fl, B), r in zip(jobs, results):
+        if r == "skip": ctx.dist["lpconvert not run (earlier runs did not terminate)"] += 1; continue
         if r is None:
             ctx.fail("C04:lpconvert-hang", "lpconvert %s does not terminate (BUF_SIZE=%d)" % (" ".join(fl), B), dict(c, flags=fl, B=B), {}); continue
         ctx.dist["lpconvert rc=%d" % r.returncode] += 1
